@@ -13,7 +13,7 @@ from pyvc.engine import Contract, Frame, LoopSpec, PURE
 from pyvc.values import forall, ANY, BOOL, FUNC, INT, LIST, NONE, OPT, REF, fresh
 
 from .spec import (
-    Disp, Inst, OBS_FIELDS, bv, contains, derived, feasible,
+    Disp, Inst, OBS_FIELDS, bv, cache_empty, cache_fields, contains, derived, feasible,
     imp, reach, rng, upd_tracking, valid_instance, zmax,
 )
 
@@ -510,7 +510,12 @@ def core_lists_kept(h0, h1, d, except_lists=()):
 def obs_frame(h=None, d=None):
     """what an observer may write: its own fields and the observer region of list
     memory (lists allocated by observer methods); nothing of the scheduling core"""
-    return Frame(fields={f: "ALL" for f in OBS_FIELDS}, olists="ALL")
+    fields = {f: "ALL" for f in OBS_FIELDS}
+    for f in cache_fields():
+        # observers may call queries of THEIR dispatcher, which fill its cache (CacheOK is kept, see queries.py)
+        fields[f] = [d] if d is not None else "ALL"
+    fields["$oidx"] = "ALL"
+    return Frame(fields=fields, olists="ALL", alloc_lists=True)
 
 
 def last_dispatched(h, d, x):
@@ -559,7 +564,7 @@ class ObserverUpdate(Contract):
             [("sees-dispatched-operation-in-schedule", last_dispatched(h, d, c["scheduled_operation"]))]
 
     def modifies(self, c):
-        return obs_frame()
+        return obs_frame(c.h0, _observer_dispatcher(c))
 
 
 @register
@@ -576,7 +581,7 @@ class ObserverReset(Contract):
             + reach(h, d) + empty_state(h, d)
 
     def modifies(self, c):
-        return obs_frame()
+        return obs_frame(c.h0, _observer_dispatcher(c))
 
 
 class _ListProp(Contract):
@@ -712,6 +717,9 @@ def _tracking_frame(h, d, extra_fields=None, extra_lists=(), alloc_objects=False
     D = Disp(h, d)
     fields = {f: "ALL" for f in OBS_FIELDS}
     fields["_cache"] = [d]
+    for f in cache_fields():
+        fields[f] = [d]
+    fields["$oidx"] = "ALL"
     fields.update(extra_fields or {})
     return Frame(fields=fields, lists=[D.mnat, D.k, D.jnat] + list(extra_lists), olists="ALL",
                  alloc_objects=alloc_objects)
@@ -759,7 +767,7 @@ class DispUpdateTracking(Contract):
                     ("still-last", last_dispatched(k.h, d, x))] + reach(k.h, d)
 
         def mod(k):
-            return obs_frame()
+            return obs_frame(k.hl, k["self"])
         return {0: LoopSpec("for subscriber in self.subscribers", inv, mod)}
 
 
@@ -880,7 +888,7 @@ class DispInit(Contract):
     def modifies(self, c):
         s = c["self"]
         names = ["instance", "schedule", "ready_operations_filter", "subscribers", "_machine_next_available_time",
-                 "_job_next_operation_index", "_job_next_available_time", "_cache", "$born", "$$cumK"]
+                 "_job_next_operation_index", "_job_next_available_time", "_cache", "$born", "$$cumK"] + cache_fields()
         return Frame(fields={n: [s] for n in names}, allocates=True)
 
     def ghost(self, c, st):
@@ -910,10 +918,11 @@ class DispReset(Contract):
         h, d = c.h0, c["self"]
         D = Disp(h, d)
         names = ["_machine_next_available_time", "_job_next_operation_index", "_job_next_available_time", "_cache",
-                 "$$cumK"]
+                 "$$cumK"] + cache_fields()
         fields = {n: [d] for n in names}
         fields["_schedule"] = [D.sch]
         fields["$$cumS"] = [D.sch]
+        fields["$oidx"] = "ALL"
         fields.update({f: "ALL" for f in OBS_FIELDS})
         return Frame(fields=fields, olists="ALL", alloc_lists=True)
 
@@ -939,7 +948,7 @@ class DispReset(Contract):
             return [("dispatcher-untouched-by-observers", z3.And(same))] + reach(k.h, d) + empty_state(k.h, d)
 
         def mod(k):
-            return obs_frame()
+            return obs_frame(k.hl, k["self"])
         return {0: LoopSpec("for subscriber in self.subscribers", inv, mod)}
 
 
